@@ -345,3 +345,6 @@ func vIsInf(a float64) bool        { return a > 1.7976931348623157e308 || a < -1
 func vRunGoroutines() { time.Sleep(100 * time.Millisecond) }
 
 func vTraceCheckAtomic(op, mutex string) {}
+
+// vEmit: natively the observation is printed (translator self-test).
+func vEmit(label, text string) { fmt.Printf("VSYM-EMIT %s=%s\n", label, text) }
